@@ -203,6 +203,15 @@ static Arg gen_arg(vf::Src& src)
     Arg a;
     a.kind = static_cast<int>(src.weighted({ 35, 18, 10, 10, 17, 10, 0, 0, 6, 6 }));
     a.s = src.coin(80) ? gen_text(src, 3) : src.bytes_nonul(0, 5);
+    // now and then a long text (around and beyond 1 KiB)
+    if (src.coin(4))
+    {
+        static const int lens[] = { 1000, 1023, 1024, 1025, 1026, 2049, 2050, 3000 };
+        int n = lens[src.index(8)];
+        a.s.clear();
+        for (int i = 0; i < n; ++i)
+            a.s.push_back(static_cast<char>('a' + (i * 7 + n) % 26));
+    }
     if (a.kind == 2 && a.s.empty())
         a.s = "{";
     static const long long ints[] = { 0, 1, -1, 42, 1000000, -2147483648ll, 2147483647ll };
@@ -482,7 +491,7 @@ std::string check(const Case& c, vf::Ctx& ctx)
         ctx.mark_nontrivial();
 
     // ---- the real thing
-    std::string got;
+    std::string got, partial_output;
     bool raised = false;
     std::string what;
     try
@@ -511,7 +520,17 @@ std::string check(const Case& c, vf::Ctx& ctx)
         case 2:
         {
             std::ostringstream o;
-            o << "<" << f << ">";
+            try
+            {
+                o << "<" << f << ">";
+            }
+            catch (...)
+            {
+                // an insertion that raises has not written anything of the formatter
+                if (o.str() != "<")
+                    partial_output = o.str();
+                throw;
+            }
             got = o.str();
             if (got.size() >= 2)
                 got = got.substr(1, got.size() - 2);
@@ -525,12 +544,35 @@ std::string check(const Case& c, vf::Ctx& ctx)
         {
             got = "<second str() differs> " + f.str();
         }
+        // copies are independent: what is added to a copy (also to a copy that is a temporary while
+        // it is extended) does not reach the original or other copies
+        {
+            auto by_value = [&]() { return f; };
+            bool copy_raised = false;
+            try
+            {
+                (void)(by_value() % std::string("+1") % 2).str();
+            }
+            catch (const std::exception&)
+            {
+                copy_raised = true;
+            }
+            if (!copy_raised) // (the original has exactly as many arguments as placeholders here)
+                got = "<a copy with two more arguments than placeholders did not raise> " + got;
+            auto h2 = f;
+            if (f.str() != got || h2.str() != got)
+                got = "<after a temporary copy was given two more arguments, the original reads " + f.str() +
+                      " and a fresh copy " + h2.str() + "> " + got;
+        }
     }
     catch (const std::exception& e)
     {
         raised = true;
         what = e.what();
     }
+    if (!partial_output.empty())
+        return "inserting a formatter with " + std::to_string(k) + " placeholders and " + std::to_string(c.args.size()) +
+               " arguments into a stream raised, but the stream already holds " + vf::vis(partial_output, 200);
     if (!arity_ok && raised && c.args.size() < k && c.supply == 0)
     {
         // asking the same, still incomplete formatter again raises again
